@@ -239,7 +239,7 @@ FIX["nested"] = lambda: topology(N("Machine", 0, [
 # 4. memory-side caches of two depths
 FIX["memcache"] = lambda: topology(N("Machine", 0, [
     Pkg(0, [Core(0, [PU(0), PU(1)])], mem=[MemCache([MemCache([NUMA(0)], size=1 << 26, depth=3)], size=1 << 28, depth=4), NUMA(2, mem=1 << 27)]),
-    Pkg(1, [Core(1, [PU(2), PU(3)])], mem=[MemCache([NUMA(1)])]),
+    Pkg(1, [Core(1, [PU(2), PU(3)])], mem=[MemCache([NUMA(1)], misc=[Misc("on-memcache", misc=[Misc("below-misc-on-memcache")])])]),
 ]))
 
 # 5. Misc children at several parents, nested Misc, escaping in names and infos
@@ -248,6 +248,18 @@ FIX["misc"] = lambda: topology(N("Machine", 0, [
         infos=[("CPUModel", "Fake <CPU> & \"co\""), ("Weird", "line1\nline2"), ("UTF8", "café 中")]),
     Pkg(1, [Core(1, [PU(2), PU(3)])], mem=[NUMA(1)], name="pkg\"name", subtype="Sub<type>"),
 ], misc=[Misc("top", subtype="MyMisc")], infos=[("MachineInfo", "x")]))
+
+# 5a. everything the importers special-case for hwloc 2.x documents (info names moved from the root object to the topology,
+# "Size"-like infos of OS devices and of MemoryModule Misc objects that get a KiB suffix, OS devices whose type word is derived
+# from name / subtype / infos, backend names recorded on OS devices): in a v3 document none of this may be touched
+FIX["compat"] = lambda: topology(N("Machine", 0, [
+    Pkg(0, [Core(0, [PU(0), PU(1)])], mem=[NUMA(0)],
+        io=[HostBridge([PCI("0000:00:01.0", io=[OSDev("dax0.0", 3, subtype="NVM", infos=[("Size", "1000"), ("SectorSize", "512"), ("Backend", "CUDA")]),
+                                                   OSDev("nvml0", 12, subtype="NVML", infos=[("Backend", "NVML"), ("NVIDIAUUID", "GPU-0")]),
+                                                   OSDev("mem0", 3, subtype="CXLMem", infos=[("CXLPMEMSize", "2048"), ("CXLRAMSize", "4096")]),
+                                                   OSDev("bxi0", 16, subtype="BXI", infos=[("Backend", "OpenCL")])])], bus=(0, 0x3f))]),
+], misc=[Misc("DIMM_A1", subtype="MemoryModule", infos=[("Vendor", "ACME"), ("Size", "16GiB"), ("Size", "16777216KiB")]), Misc("Fan1", infos=[("Size", "120mm")])],
+   infos=[("Backend", "Linux"), ("OSName", "Linux"), ("HostName", "host"), ("Architecture", "x86_64"), ("SyntheticDescription", "pu:2"), ("LinuxCgroup", "/"), ("MemoryTiersNr", "1"), ("MachineInfo", "kept")]))
 
 # 5b. a chain of arity-1 levels with Misc, I/O and memory children at every level: whatever pair of identical
 # levels a KEEP_STRUCTURE filter merges, special children of both the removed and the kept object are moved
